@@ -3,7 +3,7 @@
 use crate::report::Report;
 use crate::rng::Rng;
 use crate::tool;
-use crate::tygen::{Avoid, Gen, Module};
+use crate::tygen::{Avoid, Def, Gen, Lt, Method, Module, Prim, Sd, SelfParam, Ty, TypeDecl};
 use crate::util;
 use serde_json::json;
 
@@ -53,6 +53,11 @@ pub fn main(args: &[String]) {
     let n = if a.n > 0 { a.n } else if thorough { 4200 } else { 280 };
     let mut mods: Vec<(String, bool, Module)> = vec![];
     // hand-written witnesses of the recorded findings run first (they re-confirm them on every run)
+    let opa = |methods: Vec<Method>| Module { types: vec![TypeDecl { name: "Opa".into(), def: Def::Opaque, methods }] };
+    let this = || Some(SelfParam { ty: "Opa".into(), by_ref: true, mutable: false, lt: Lt::Anon });
+    mods.push(("kotlin".into(), false, opa(vec![Method { name: "ma".into(), self_param: this(), params: vec![("f".into(), Ty::Fn(vec![Ty::Prim(Prim::U8)], Box::new(Ty::Unit)))], ret: None }])));
+    mods.push(("js".into(), false, opa(vec![Method { name: "ma".into(), self_param: this(), params: vec![], ret: Some(Ty::Res(Box::new(Ty::Prim(Prim::U8)), Box::new(Ty::Prim(Prim::I8)), Sd::Std)) }])));
+    mods.push(("dart".into(), false, opa(vec![Method { name: "ma".into(), self_param: this(), params: vec![("p".into(), Ty::PSlice(Some((Lt::Anon, false)), Prim::Byte, Sd::Std))], ret: None }])));
     for i in 0..n {
         let target = BACKENDS[i % BACKENDS.len()];
         let unsafe_refs = i % 5 == 0;
